@@ -588,15 +588,35 @@ func (repo *Repository) CheckHeader(ctx context.Context,
 
 	branch, height := repo.branches.Find(hash)
 	if branch != nil {
-		return height, branch == repo.longest, nil
+		return height, repo.isLongestAtHeight(ctx, hash, height), nil
 	}
 
 	// Lookup in larger map
 	if height, exists := repo.heights[hash]; exists {
-		return height, true, nil
+		return height, repo.isLongestAtHeight(ctx, hash, height), nil
 	}
 
 	return -1, false, ErrUnknownHeader
+}
+
+// isLongestAtHeight returns true if the header at the specified height of the most proof of work chain has
+// the specified hash. A branch other than the longest can hold ancestors of the tip, and the heights map
+// can hold headers of pruned or trimmed branches, so membership is decided by the chain itself.
+func (repo *Repository) isLongestAtHeight(ctx context.Context, hash bitcoin.Hash32, height int) bool {
+	if height < 0 || height > repo.longest.Height() {
+		return false
+	}
+
+	if data := repo.longest.AtHeight(height); data != nil {
+		return data.Hash.Equal(&hash)
+	}
+
+	header, err := repo.header(ctx, height)
+	if err != nil {
+		return false
+	}
+
+	return header.BlockHash().Equal(&hash)
 }
 
 // GetHeader returns the header with the specified hash with its block height and whether it is
@@ -613,7 +633,7 @@ func (repo *Repository) GetHeader(ctx context.Context,
 			return nil, -1, false, ErrHeaderNotAvailable
 		}
 
-		return data.Header, height, branch == repo.longest, nil
+		return data.Header, height, repo.isLongestAtHeight(ctx, hash, height), nil
 	}
 
 	// Lookup in larger map
@@ -621,6 +641,11 @@ func (repo *Repository) GetHeader(ctx context.Context,
 		header, err := repo.header(ctx, height)
 		if err != nil {
 			return nil, -1, false, err
+		}
+
+		if !header.BlockHash().Equal(&hash) {
+			// Only the most proof of work chain is retained below the branches held in memory.
+			return nil, -1, false, ErrHeaderNotAvailable
 		}
 
 		return header, height, true, nil
